@@ -220,11 +220,17 @@ nni_msgq_aio_put(nni_msgq *mq, nni_aio *aio)
 {
 	nni_mtx_lock(&mq->mq_lock);
 
-	// If this is an instantaneous poll operation, and the queue has
-	// no room, nobody is waiting to receive, then report NNG_ETIMEDOUT.
-	if (!nni_aio_start(aio, nni_msgq_cancel, mq)) {
-		nni_mtx_unlock(&mq->mq_lock);
-		return;
+	// Complete synchronously if the message can be taken right away.
+	// Only if it has to wait do we start an asynchronous operation; thus
+	// an instantaneous poll operation reports NNG_ETIMEDOUT only if the
+	// queue has no room and nobody is waiting to receive.  (Decide this
+	// up front: once completed, the aio may already be in use elsewhere.)
+	if ((!nni_list_empty(&mq->mq_aio_putq)) ||
+	    (nni_list_empty(&mq->mq_aio_getq) && (mq->mq_len >= mq->mq_cap))) {
+		if (!nni_aio_start(aio, nni_msgq_cancel, mq)) {
+			nni_mtx_unlock(&mq->mq_lock);
+			return;
+		}
 	}
 	nni_aio_list_append(&mq->mq_aio_putq, aio);
 	nni_msgq_run_putq(mq);
@@ -237,11 +243,14 @@ void
 nni_msgq_aio_get(nni_msgq *mq, nni_aio *aio)
 {
 	nni_mtx_lock(&mq->mq_lock);
-	if (!nni_aio_start(aio, nni_msgq_cancel, mq)) {
-		nni_mtx_unlock(&mq->mq_lock);
-		return;
+	// As for put: complete synchronously if a message is available.
+	if ((!nni_list_empty(&mq->mq_aio_getq)) ||
+	    ((mq->mq_len == 0) && nni_list_empty(&mq->mq_aio_putq))) {
+		if (!nni_aio_start(aio, nni_msgq_cancel, mq)) {
+			nni_mtx_unlock(&mq->mq_lock);
+			return;
+		}
 	}
-
 	nni_aio_list_append(&mq->mq_aio_getq, aio);
 	nni_msgq_run_getq(mq);
 	nni_msgq_run_notify(mq);
